@@ -3,6 +3,10 @@
 //!   desc decode <raw>          → `<empty> <contig> <hi> <start|panic:…> <extent|panic:…> <index>`
 //!   desc discontig <counter|-> <n> → set the global counter (`-` = initial value), create n
 //!                                descriptors: `raw:empty:contig:hi:index` joined by `;`
+//!   desc discrace <counter> <threads> <per> → set the counter; `threads` real threads leave a spin start line and
+//!                                create `per` descriptors each; the descriptors of all threads, sorted by raw
+//!                                value, in the format of `discontig` (equal to `discontig <counter> threads*per`
+//!                                iff every create was atomic: no duplicate, no gap)
 use crate::proto::*;
 use mmtk::verif::layout::desc as h;
 
@@ -43,6 +47,42 @@ pub fn run(args: &[&str]) -> String {
                         h::get_index(raw)
                     )
                 })
+                .collect::<Vec<_>>()
+                .join(";")
+        }
+        ["discrace", c, t, per] => {
+            use std::sync::atomic::{AtomicUsize, Ordering};
+            use std::sync::{Arc, Barrier};
+            let (t, per) = (unum(t), unum(per));
+            if t == 0 || t > 32 || per == 0 || t * per > 100_000 {
+                return "bad-op".to_string();
+            }
+            h::set_discontiguous_counter(Some(unum(c)));
+            let barrier = Arc::new(Barrier::new(t));
+            let go = Arc::new(AtomicUsize::new(0));
+            let hs: Vec<_> = (0..t)
+                .map(|_| {
+                    let (barrier, go) = (barrier.clone(), go.clone());
+                    std::thread::spawn(move || {
+                        barrier.wait();
+                        go.fetch_add(1, Ordering::SeqCst);
+                        while go.load(Ordering::SeqCst) < t {
+                            std::hint::spin_loop();
+                        }
+                        (0..per).map(|_| h::create_discontiguous()).collect::<Vec<usize>>()
+                    })
+                })
+                .collect();
+            let mut raws: Vec<usize> = vec![];
+            for x in hs {
+                match x.join() {
+                    Ok(v) => raws.extend(v),
+                    Err(_) => return "panic".to_string(),
+                }
+            }
+            raws.sort_unstable();
+            raws.iter()
+                .map(|&raw| format!("{}:{}:{}:{}:{}", raw, h::is_empty(raw), h::is_contiguous(raw), h::is_contiguous_hi(raw), h::get_index(raw)))
                 .collect::<Vec<_>>()
                 .join(";")
         }
